@@ -484,7 +484,11 @@ def run_c15(ctx):
                 # save and load through the real file functions
                 before = wallet_digest(w)
                 save_wallet(w)
-                w2 = Wallet.load(open("wallet.json"))
+                # a restart opens the wallet the way the node's scripts do (scripts/utils.open_or_init_wallet)
+                import contextlib
+                import skepticoin.scripts.utils as _su
+                with contextlib.redirect_stdout(io.StringIO()):
+                    w2 = _su.open_or_init_wallet()
                 w2_digest = wallet_digest(w2)
                 spent_free = re.sub(r"spent=.*", "spent=", before)
                 if w2_digest != spent_free or list(w2.keypairs.items()) != list(w.keypairs.items()) \
